@@ -65,6 +65,9 @@ pub struct Gen<'r> {
     /// global functions printed as `pu`: never used as first-class values (a `pu` and an `fn` function
     /// do not unify in both directions, so mixing them in one if/case would be a type error)
     pu_globals: Vec<BId>,
+    /// while the base case of a recursive function is generated the function must not call itself
+    /// (it would never return, and nothing but an annotation would determine its return type)
+    banned_call: Option<BId>,
 }
 
 const INT_POOL: &[i64] = &[0, 1, 2, 3, 4, 5, 7, 10, 12, 100, 255, 1000, 65536, 2147483647, 4294967296, 9007199254740993, 9223372036854775807];
@@ -91,7 +94,7 @@ const STR_POOL: &[&str] = &["", "a", "b", "ab", "abc", "hello", "Z", "0", "x y",
 
 impl<'r> Gen<'r> {
     pub fn new(rng: &'r mut Rng, cfg: Cfg) -> Self {
-        Gen { rng, p: Program::default(), cfg, scopes: Vec::new(), globals: Vec::new(), fns: Vec::new(), ctx: Vec::new(), n_asserts: 0, n_unreach: 0, no_effects: false, arm_bias: None, pu_globals: Vec::new() }
+        Gen { rng, p: Program::default(), cfg, scopes: Vec::new(), globals: Vec::new(), fns: Vec::new(), ctx: Vec::new(), n_asserts: 0, n_unreach: 0, no_effects: false, arm_bias: None, pu_globals: Vec::new(), banned_call: None }
     }
 
     fn feat(&mut self, f: &'static str) {
@@ -278,7 +281,7 @@ impl<'r> Gen<'r> {
         let d = depth - 1;
         // generic alternatives available for every type
         let vars = self.vars_of(ty);
-        let calls: Vec<FnInfo> = self.fns.iter().filter(|f| &f.ret == ty && (!self.no_effects || f.effect_free)).cloned().collect();
+        let calls: Vec<FnInfo> = self.fns.iter().filter(|f| &f.ret == ty && (!self.no_effects || f.effect_free) && Some(f.b) != self.banned_call).cloned().collect();
         let generic = self.rng.weighted(&[
             6,                                        // type-specific
             if vars.is_empty() { 0 } else { 4 },      // variable
@@ -755,7 +758,13 @@ impl<'r> Gen<'r> {
             Ty::Blob(b) => {
                 self.feat("blob_literal");
                 let fields = self.p.blobs[*b].fields.clone();
-                let fs = fields.iter().map(|(n, t)| (n.clone(), self.field_init(*b, t, d))).collect();
+                // initialisers are written (and evaluated) in an order of their own, not the declaration's
+                let mut order: Vec<usize> = (0..fields.len()).collect();
+                if self.rng.chance(1, 2) {
+                    self.rng.shuffle(&mut order);
+                    self.feat("blob_literal_fields_reordered");
+                }
+                let fs = order.iter().map(|k| (fields[*k].0.clone(), self.field_init(*b, &fields[*k].1, d))).collect();
                 Expr::BlobNew { blob: *b, fields: fs }
             }
             Ty::Enum(e) => {
@@ -1228,14 +1237,15 @@ impl<'r> Gen<'r> {
                     1 => Ty::Tuple(vec![Ty::Int, Ty::Int]),
                     _ => Ty::List(Box::new(Ty::Int)),
                 };
-                fields.push((format!("f{}", k), t));
+                // names that are NOT in alphabetical order when listed in declaration order
+                fields.push((format!("{}{}", ["t", "g", "p", "b", "w", "d"][(k + i) % 6], k), t));
             }
             if self.rng.chance(1, 2) {
                 let r = if self.rng.chance(1, 2) { Ty::Void } else { fields[0].1.clone() };
                 let ps = if self.rng.chance(1, 2) { vec![Ty::Int] } else { vec![] };
                 // the method may come before, between or after the data fields
                 let at = self.rng.below(fields.len() + 1);
-                fields.insert(at, (format!("m{}", nf), Ty::Fn(ps, Box::new(r))));
+                fields.insert(at, (format!("{}{}", ["m", "a", "z"][i % 3], nf), Ty::Fn(ps, Box::new(r))));
             }
             self.p.blobs.push(BlobDecl { name: format!("Bl{}", i), fields });
             self.p.items.push(Item::Blob(i));
@@ -1363,7 +1373,9 @@ impl<'r> Gen<'r> {
         let mut body = Block::default();
         if recursive {
             // base case
+            self.banned_call = Some(fb);
             let base: Vec<Stmt> = if ret == Ty::Void { vec![Stmt::Ret(None)] } else { vec![Stmt::Ret(Some(self.expr(&ret, 1)))] };
+            self.banned_call = None;
             body.stmts.push(Stmt::Expr(Expr::If {
                 branches: vec![(Expr::Bin(BinOp::Le, Box::new(Expr::Var(params[0])), Box::new(Expr::Int(0))), Block { stmts: base, value: None })],
                 els: None,
